@@ -25,6 +25,11 @@ subclasses of those; the model sees `__bases__` only. Twin diagrams (`(twin t)`,
 further diagrams are built from the same m0 class objects and same-named m1 classes of a copy of m1 — every diagram
 must mirror its own classes, so all of them must look like the main one.
 
+Endpoint classes (`(sub float 0)`, `(mix int 0)`, `(plain 0)`): besides the listed builtin scalars, the dataclasses `C<i>` and
+the plain enums `E<i>`, a field may end at a proper subclass of a builtin scalar (`class Sfloat0(float)`), at an enum
+with a scalar mix-in (`class Mint0(enum.IntEnum)`, `class Mint1(int, enum.Enum)`, `class Mstr0(enum.StrEnum)`, …) or at
+an unrelated plain class (`class P0`): none of them is builtin-valued, the mix-in enums are enums.
+
 Ground truth never comes from the code under test: the Lean driver computes `spec=` from the generating terms."""
 from __future__ import annotations
 
@@ -59,7 +64,69 @@ THEOREMS = [
     "KrroodVerif.CD.C17_cex_subdiagram",
     "KrroodVerif.CD.C17_accessors",
     "KrroodVerif.CD.C17_accessors_pure",
+    "KrroodVerif.CD.C17_consistent",
+    "KrroodVerif.CD.C17_enum_one_to_one",
 ]
+
+
+def extra_obligations():
+    """Second tie, by translation: regenerate the `WrappedField` accessors from /repo's CURRENT `wrapped_field.py`
+    (Python ast -> Lean functions over `Ann` written in the primitives of Model/ClassDiagramPy.lean) and have the kernel
+    re-check, for every annotation, that each translated accessor equals the hand-written model under `Quirks.current`,
+    that the translated functions have the classification property, and that they are mutually consistent."""
+    import re
+    import subprocess
+    import core
+    from translate.c17_translate import generate as gen, TranslationError, THEOREM_NAMES
+    try:
+        text = gen(core.REPO)
+    except (TranslationError, SyntaxError, OSError, RecursionError) as e:
+        return [{"name": n, "ok": False, "detail": f"translator rejected the source: {e}"} for n in THEOREM_NAMES]
+    tmp = core.LEAN_DIR / ".lake" / "audit"
+    tmp.mkdir(parents=True, exist_ok=True)
+
+    def check(diagnostics: bool):
+        text = gen(core.REPO, diagnostics)
+        f = tmp / f"C17Translated_{os.getpid()}.lean"
+        f.write_text(text + "".join(f"#print axioms {n}\n" for n in THEOREM_NAMES))
+        try:
+            p = subprocess.run(["lake", "env", "lean", str(f)], cwd=str(core.LEAN_DIR), capture_output=True, text=True,
+                               timeout=900)
+        finally:
+            try:
+                f.unlink()
+            except OSError:
+                pass
+        raw = (p.stdout or "") + (p.stderr or "")
+        out = " ".join(raw.split())
+        forbidden = re.search(r"\b(sorry|admit|native_decide|axiom)\b", text) is not None
+        verdict = {}
+        for n in THEOREM_NAMES:
+            m = re.search(r"'" + re.escape(n) + r"' depends on axioms: \[([^\]]*)\]", out)
+            none = re.search(r"'" + re.escape(n) + r"' does not depend on any axioms", out)
+            ax = [a.strip() for a in m.group(1).split(",")] if m else ([] if none else None)
+            # a theorem the kernel accepted with admissible axioms stands on its own, whatever else in the file failed
+            verdict[n] = ((not forbidden) and ax is not None and set(ax) <= core.ALLOWED_AXIOMS, ax)
+        return text, raw, verdict
+
+    text, raw, verdict = check(False)
+    if not all(ok for ok, _ in verdict.values()):
+        # something broke: once more, with the probe annotations on which translation and model differ (`DIFF` lines)
+        text, raw, verdict = check(True)
+    res = []
+    for n in THEOREM_NAMES:
+        ok, ax = verdict[n]
+        short = n.split(".C17_")[1].replace("_translated_eq_model", "")
+        diffs = [ln for ln in raw.splitlines() if ln.startswith("DIFF ") and "none on" not in ln]
+        mine = [ln for ln in diffs if ln.startswith(f"DIFF {short}:")]
+        errs = [ln for ln in raw.splitlines() if ": error" in ln][:6]
+        res.append({"name": n, "ok": ok, "axioms": ax,
+                    "detail": "" if ok else "the accessors as regenerated from the current wrapped_field.py:\n"
+                              + text[text.find("namespace KrroodVerif.CD.Translated"):text.find("/-! ### Proof obligations")][-1800:]
+                              + "\n".join(errs) + "\n" + "\n".join(mine or diffs[:4])})
+    return res
+
+
 MODEL_FUNCTION = ("CD.flags / CD.endpoint / CD.build / CD.derive / CD.stepOp / CD.reported (Model/ClassDiagram.lean) = "
                   "wrapped_field.py predicates, ClassDiagram.__post_init__, to_subdiagram_without_inherited_associations")
 TRUSTED = [
@@ -67,6 +134,8 @@ TRUSTED = [
     "hand-written model Model/ClassDiagram.lean of wrapped_field.py / class_diagram.py / attribute_introspector.py",
     "this correspondence harness: the renderer Ann -> Python source, the observation of the real ClassDiagram, the "
     "S-expression driver and its printers",
+    "second tie: the translator harness/translate/c17_translate.py (Python ast of wrapped_field.py -> Lean) and the Lean "
+    "semantics of the primitives it targets (Model/ClassDiagramPy.lean)",
 ]
 ASSUMPTIONS = [
     "CPython 3.12 typing: get_type_hints evaluates string annotations to the objects they name; get_origin/get_args "
@@ -76,6 +145,9 @@ ASSUMPTIONS = [
     "parallel edge; graph.copy() is independent of the original",
     "fields annotated with a TypeVar (`x: T` in a Generic class) are not generated: a TypeVar is not a term of the "
     "annotation grammar (observed: the endpoint is the TypeVar itself, is_enum raises TypeError)",
+    "endpoint classes: listed builtin scalar | proper subclass of a builtin scalar (class Sfloat0(float); bool cannot be "
+    "subclassed) | plain Enum | Enum with a scalar mix-in (IntEnum, StrEnum, (int|str|float, Enum)) | dataclass of the "
+    "world | other plain class; builtin-valued means exact membership in [int, float, str, bool, datetime, NoneType]",
     "field names are unique in a case, every field has a default, no Role classes, no bare containers, no Dict / "
     "FrozenSet / Any annotations (outside the supported grammar: container_types names the supported containers)",
 ]
@@ -102,8 +174,10 @@ def sx(a) -> str:
     t = a[0]
     if t in BUILTINS:
         return t
-    if t in ("cls", "enum"):
+    if t in ("cls", "enum", "plain"):
         return f"({t} {a[1]})"
+    if t in ("sub", "mix"):
+        return f"({t} {a[1]} {a[2]})"
     if t == "opt":
         return f"(opt {a[1]} {sx(a[2])})"
     if t == "cont":
@@ -137,8 +211,10 @@ def _ann_of(s):
     if isinstance(s, str):
         return (s,)
     t = s[0]
-    if t in ("cls", "enum"):
+    if t in ("cls", "enum", "plain"):
         return (t, int(s[1]))
+    if t in ("sub", "mix"):
+        return (t, s[1], int(s[2]))
     if t == "opt":
         return ("opt", s[1], _ann_of(s[2]))
     if t == "cont":
@@ -290,6 +366,51 @@ def cls_refs(a) -> List[int]:
 
 # ------------------------------------------------------------------------------------------- rendering
 
+EXT = ("sub", "mix", "plain")
+
+
+def ext_name(a) -> str:
+    """class name of an endpoint class that is neither a listed builtin, nor a dataclass of the world, nor a plain Enum"""
+    return {"sub": "S", "mix": "M"}[a[0]] + a[1] + str(a[2]) if a[0] != "plain" else f"P{a[1]}"
+
+
+def ext_def(a) -> str:
+    """source of such a class: `class Sfloat0(float)`; `class Mint0(enum.IntEnum)` / `class Mint1(int, enum.Enum)`;
+    `class Mstr0(enum.StrEnum)` / `class Mstr1(str, enum.Enum)`; `class P0`"""
+    n = ext_name(a)
+    if a[0] == "plain":
+        return f"\n\nclass {n}:\n    pass\n"
+    if a[0] == "sub":
+        return f"\n\nclass {n}({a[1]}):\n    pass\n"
+    b, i = a[1], a[2]
+    if b == "int":
+        base = "enum.IntEnum" if i % 2 == 0 else "int, enum.Enum"
+        body = "    A = 1\n    B = 2\n"
+    elif b == "str":
+        base = "enum.StrEnum" if i % 2 == 0 else "str, enum.Enum"
+        body = '    A = "a"\n    B = "b"\n'
+    elif b == "float":
+        base, body = "float, enum.Enum", "    A = 1.5\n    B = 2.5\n"
+    elif b == "datetime":
+        base, body = "datetime, enum.Enum", "    A = (2020, 1, 1)\n    B = (2021, 1, 1)\n"
+    else:
+        raise ValueError(a)  # bool cannot be subclassed
+    return f"\n\nclass {n}({base}):\n{body}"
+
+
+def ext_leaves(a) -> list:
+    t = a[0]
+    if t in EXT:
+        return [a]
+    if t in ("opt", "cont"):
+        return ext_leaves(a[2])
+    if t in ("type", "fwd"):
+        return ext_leaves(a[1])
+    if t == "union":
+        return ext_leaves(a[1]) + ext_leaves(a[2])
+    return []
+
+
 def render_ann(a, quoted: bool) -> str:
     """Ann -> Python annotation source. `quoted`: we are already inside a string literal."""
     t = a[0]
@@ -299,6 +420,8 @@ def render_ann(a, quoted: bool) -> str:
         return f"C{a[1]}"
     if t == "enum":
         return f"E{a[1]}"
+    if t in EXT:
+        return ext_name(a)
     if t == "fwd":
         inner = render_ann(a[1], True)
         return inner if quoted else '"' + inner + '"'
@@ -360,6 +483,7 @@ def render(p: Prog) -> Dict[str, str]:
     """module name -> source"""
     out: Dict[str, str] = {"__init__": ""}
     nmods = 2 if p.mods == 2 else 1
+    exts = sorted({x for d in p.defs for _, _, a in d[2] for x in ext_leaves(a)})
     for m in range(nmods):
         src = ("from __future__ import annotations\n" if p.future else "") + HEADER
         mine = [d for d, mo in zip(p.defs, p.modof) if mo == m]
@@ -371,8 +495,10 @@ def render(p: Prog) -> Dict[str, str]:
                 src += 'T = TypeVar("T")\n'
             for e in range(p.enums):
                 src += f"\n\nclass E{e}(enum.Enum):\n    A = 1\n    B = 2\n"
+            for x in exts:
+                src += ext_def(x)
         else:
-            names = others + [f"E{e}" for e in range(p.enums)] + (["T"] if p.generic else [])
+            names = others + [f"E{e}" for e in range(p.enums)] + [ext_name(x) for x in exts] + (["T"] if p.generic else [])
             if names:
                 src += "from .m0 import " + ", ".join(names) + "\n"
         for cid, bases, fields in mine:
@@ -1026,12 +1152,20 @@ def _ancestors(bases: Dict[int, List[int]], c: int) -> set:
     return out
 
 
+# endpoint classes that are proper subclasses of a builtin scalar, enums with a scalar mix-in, or unrelated classes
+EXT_LEAVES = [("sub", "float", 0), ("sub", "int", 0), ("sub", "str", 0), ("sub", "datetime", 0),
+              ("mix", "int", 0), ("mix", "int", 1), ("mix", "str", 0), ("mix", "str", 1), ("mix", "float", 0),
+              ("plain", 0)]
+
+
 def _gen_leaf(rng, n: int, enums: int, prefer_cls=0.5):
     r = rng.random()
     if r < prefer_cls:
         return ("cls", rng.randrange(n))
     if enums and r < prefer_cls + 0.18:
         return ("enum", rng.randrange(enums))
+    if r > 0.93:
+        return rng.choice(EXT_LEAVES)
     return (rng.choice(BUILTINS),)
 
 
@@ -1197,9 +1331,12 @@ def _mk(p: Prog, tags, origin) -> Case:
 def _exhaustive_forms(tier: str) -> List[Case]:
     """family (a): every wrapper form x leaf x quoting, on `C0` (owner, one field) and `C1` (target)"""
     cases = []
-    leaves = [("int",), ("str",), ("datetime",), ("cls", 1), ("cls", 0), ("enum", 0)]
+    leaves = [("int",), ("str",), ("datetime",), ("cls", 1), ("cls", 0), ("enum", 0),
+              # endpoint classes deriving from a builtin scalar (not builtin-valued: membership is exact), mix-in enums
+              # (enums, not builtin-valued), an unrelated class
+              ("sub", "float", 0), ("mix", "int", 0), ("mix", "str", 1), ("plain", 0)]
     if tier != "quick":
-        leaves += [("float",), ("bool",)]
+        leaves += [("float",), ("bool",)] + [x for x in EXT_LEAVES if x not in leaves]
 
     def forms(x):
         yield "leaf", x
@@ -1259,7 +1396,7 @@ def _exhaustive_nested(tier: str) -> List[Case]:
     def ap(w, x):
         return ("type", x) if w[0] == "type" else (w[0], w[1], x)
 
-    for leaf in [("int",), ("cls", 1), ("enum", 0)]:
+    for leaf in [("int",), ("cls", 1), ("enum", 0), ("mix", "int", 0)] + ([("sub", "str", 0)] if tier != "quick" else []):
         for w1 in wrappers():
             for w2 in wrappers():
                 if w1[0] == "opt" and w2[0] == "opt":
@@ -1519,7 +1656,7 @@ def _ann_shrinks(a):
     elif t == "union":
         yield a[1]
         yield a[2]
-    elif t in ("cls", "enum"):
+    elif t in ("cls", "enum") or t in EXT:
         yield ("int",)
 
 
